@@ -402,6 +402,51 @@ pub fn make(profile: &str, seed: u64, index: u64) -> (Params, Extras) {
     let mut ex = Extras::default();
     let p = match profile {
         "C11" => amplification(seed, index, &mut ex),
+        "C06" => {
+            // 2 of 3 scenarios: genuine traffic untouched (pure injection); else lossy as well
+            let pure = index % 3 != 2;
+            let mut p = gen_general(
+                "C06",
+                seed,
+                &["C06", "C01"],
+                GenOpts {
+                    max_clients: 2,
+                    max_streams: 4,
+                    max_len: 300_000,
+                    tiny_windows: 1,
+                    hostile_app: false,
+                    net_intensity: if pure { (0, 0) } else { (1, 2) },
+                    server_streams: true,
+                    rtts: 100,
+                },
+            );
+            let mut r = Rng::new(seed ^ 0xc06);
+            p.retry = false;
+            p.net.mtu = 9200;
+            for c in p.clients.iter_mut() {
+                c.close_code = Some(0);
+                c.abort_at_us = None;
+                // make sure there is enough traffic to attack
+                if let Some(s) = c.streams.first_mut() {
+                    s.fwd.len = s.fwd.len.max(r.range(20_000, 120_000));
+                    s.fwd.end = End::Finish;
+                }
+            }
+            let clients = p.clients.clone();
+            for (c, orig) in p.clients.iter_mut().zip(clients.iter()) {
+                for (s, o) in c.streams.iter_mut().zip(orig.streams.iter()) {
+                    let _ = o;
+                    cap_stream(s, &p.server, &c.cfg, 100);
+                }
+            }
+            let rate = *r.pick(&[100u64, 300, 600, 900]);
+            ex.injector = Some(Box::new(crate::mon::c06::Forger::new(
+                rate,
+                p.server.cid_len,
+                r.range(100, 600),
+            )));
+            p
+        }
         "C02" => must_deliver(seed, index % 4 == 3),
         "C02bh" => never_recovers(seed, index),
         "smoke" => {
@@ -538,6 +583,7 @@ pub fn nontrivial_features(profile: &str) -> &'static [&'static str] {
         "C12" => &["retransmission", "resegmented", "reset_sent", "close_sent"],
         "C02" => &["blocked_stream_credit", "blocked_conn_credit", "blocked_stream_count", "loss", "net_drop", "congestion_event"],
         "C02bh" => &["net_drop"],
+        "C06" => &["injection"],
         "C11" => &["net_drop", "net_dup", "server_at_amplification_limit", "retry_sent", "rebind", "loss"],
         _ => &["loss", "reordered_rx"],
     }
